@@ -90,6 +90,19 @@ static int encode_mem(struct instr *instrc, int m) {
     instrc->opd[m].index = instrc->opd[m].reg;
     instrc->opd[m].reg = swap;
   }
+  // nasm-style rewriting of an operand without base register: [1*r] -> [r]
+  // and [2*r] -> [r+1*r]; done here so that the rbp/r13 (disp8 0) and
+  // rsp/r12 (SIB) special cases below see the final base register
+  if ((instrc->assembly_opt & NASM_SIB_NO_BASE) &&
+      instrc->opd[m].reg == reg_none && instrc->opd[m].index != reg_none) {
+    if (instrc->sib_disp == SIB) {
+      instrc->opd[m].reg = instrc->opd[m].index;
+      instrc->opd[m].index = reg_none;
+    } else if (instrc->sib_disp == SIB2) {
+      instrc->opd[m].reg = instrc->opd[m].index;
+      instrc->sib_disp = SIB;
+    }
+  }
   // if r/m value is a memory reference and is the spl register
   if ((instrc->opd[m].reg & VALUE_MASK) == spl &&
       instrc->opd[m].index == reg_none)
